@@ -30,6 +30,19 @@ Proof. exact no_arg_write_Frame_chop. Qed.
 Theorem C09_cylinder_quadrature : no_arg_write F_cylinder_Cylinder_quadrature.
 Proof. exact no_arg_write_Cylinder_quadrature. Qed.
 
+(* the chopper family: constructing a DiskChopper (validation of the caller's slit edges included), its opening /
+   closing times, the plateau filters and the cascade chopper built from a disk chopper *)
+Theorem C09_DiskChopper_construction : no_arg_write F_diskchopper_DiskChopper__new_.
+Proof. exact no_arg_write_DiskChopper_new. Qed.
+Theorem C09_DiskChopper_from_nexus : no_arg_write F_diskchopper_DiskChopper_from_nexus.
+Proof. exact no_arg_write_DiskChopper_from_nexus. Qed.
+Theorem C09_DiskChopper_open_duration : no_arg_write F_diskchopper_DiskChopper_open_duration.
+Proof. exact no_arg_write_DiskChopper_open_duration. Qed.
+Theorem C09_find_plateaus : no_arg_write F_filtering_find_plateaus.
+Proof. exact no_arg_write_find_plateaus. Qed.
+Theorem C09_Chopper_from_disk_chopper : no_arg_write F_cascade_Chopper_from_disk_chopper.
+Proof. exact no_arg_write_Chopper_from_disk_chopper. Qed.
+
 (* (b) for every history (unbounded length) that only calls operations whose results the analysis found
    private, every result equals the pristine one *)
 Theorem C09_history_independent_on_private_ops : forall hist,
@@ -55,5 +68,6 @@ Proof. intro k. exact (shared_attribute_refuted _ _ _ _ k). Qed.
 Print Assumptions C09_no_argument_is_written.
 Print Assumptions C09_two_theta.
 Print Assumptions C09_remove_peaks.
+Print Assumptions C09_DiskChopper_construction.
 Print Assumptions C09_history_independent_on_private_ops.
 Print Assumptions C09_scattering_params_shared_refuted.
